@@ -365,6 +365,30 @@ impl<'a> Rw<'a> {
     }
 }
 
+/// matches  X.iter().copied().chain(Y.iter().copied())  and returns (X, Y)
+fn match_copied_chain(e: &Expr) -> Option<(Expr, Expr)> {
+    fn iter_copied(e: &Expr) -> Option<Expr> {
+        if let Expr::MethodCall(c) = e {
+            if c.method == "copied" && c.args.is_empty() {
+                if let Expr::MethodCall(i) = &*c.receiver {
+                    if i.method == "iter" && i.args.is_empty() {
+                        return Some((*i.receiver).clone());
+                    }
+                }
+            }
+        }
+        None
+    }
+    if let Expr::MethodCall(ch) = e {
+        if ch.method == "chain" && ch.args.len() == 1 {
+            let x = iter_copied(&ch.receiver)?;
+            let y = iter_copied(&ch.args[0])?;
+            return Some((x, y));
+        }
+    }
+    None
+}
+
 fn is_screaming(s: &str) -> bool {
     s.len() > 1 && s.chars().all(|c| c.is_ascii_uppercase() || c.is_ascii_digit() || c == '_')
 }
@@ -662,6 +686,18 @@ impl<'a> VisitMut for Rw<'a> {
                 visit_mut::visit_expr_mut(self, e);
             }
             Expr::MethodCall(mc) => {
+                // E3d: X.iter().copied().chain(Y.iter().copied()).collect()  ==>  concat_bytes(X, Y)
+                if mc.method == "collect" {
+                    if let Some((x, y)) = match_copied_chain(&mc.receiver) {
+                        self.bump("E3d.concat_bytes");
+                        let mut x = x;
+                        let mut y = y;
+                        self.visit_expr_mut(&mut x);
+                        self.visit_expr_mut(&mut y);
+                        *e = Expr::Verbatim(quote!( concat_bytes( #x , #y ) ));
+                        return;
+                    }
+                }
                 // E3: drop .as_ref() on byte-generic parameters
                 if mc.method == "as_ref" && mc.args.is_empty() {
                     if let Expr::Path(rp) = &*mc.receiver {
@@ -871,8 +907,16 @@ impl<'a> VisitMut for Rw<'a> {
                 },
                 _ => None,
             };
+            let method_name: Option<String> = match &s {
+                Stmt::Expr(Expr::MethodCall(mc), Some(_)) => Some(mc.method.to_string()),
+                _ => None,
+            };
             self.visit_stmt_mut(&mut s);
             out.push(s);
+            if let Some(m) = method_name {
+                let hs = self.hints_at(&format!("after-method {}", m));
+                out.extend(hs);
+            }
             if let Some(n) = let_name {
                 let hs = self.hints_at(&format!("after-let {}", n));
                 out.extend(hs);
